@@ -26,6 +26,7 @@ package numberenc
 //@   mode bv
 //@   ensures len(result) == len(dst) + 2 && prefix_kept(result, dst)
 //@   ensures dec16(result, len(dst)) == u
+//@   assigns elements
 
 //@ func UnmarshalUint16
 //@   mode bv
@@ -37,6 +38,13 @@ package numberenc
 //@   mode bv
 //@   ensures len(result) == len(dst) + 4 && prefix_kept(result, dst)
 //@   ensures dec32(result, len(dst)) == u
+//@   assigns elements
+
+//@ func MarshalUint32Copy
+//@   mode bv
+//@   requires len(dst) >= 4
+//@   ensures dec32(dst, 0) == u
+//@   assigns elements
 
 //@ func UnmarshalUint32
 //@   mode bv
@@ -48,6 +56,7 @@ package numberenc
 //@   mode bv
 //@   ensures len(result) == len(dst) + 8 && prefix_kept(result, dst)
 //@   ensures dec64(result, len(dst)) == u
+//@   assigns elements
 
 //@ func UnmarshalUint64
 //@   mode bv
@@ -59,6 +68,7 @@ package numberenc
 //@   mode bv
 //@   ensures len(result) == len(dst) + 8 && prefix_kept(result, dst)
 //@   ensures dec64(result, len(dst)) == zz(v)
+//@   assigns elements
 
 //@ func UnmarshalInt64
 //@   mode bv
@@ -70,6 +80,7 @@ package numberenc
 //@   mode bv
 //@   ensures len(result) == len(dst) + 8 && prefix_kept(result, dst)
 //@   ensures dec64(result, len(dst)) == f64bits(f)
+//@   assigns elements
 
 //@ func UnmarshalFloat64
 //@   mode bv
@@ -81,6 +92,7 @@ package numberenc
 //@   mode bv
 //@   ensures len(result) == len(dst) + 1 && prefix_kept(result, dst)
 //@   ensures (result[len(dst)] == 1) == b
+//@   assigns elements
 
 //@ func UnmarshalBool
 //@   mode bv
